@@ -165,6 +165,14 @@ def limit_streams():
                     for rk in ("response-lax", "response-strict"):
                         out.append((limits, "unterminated_status_line", delta, rk, pad("HTTP/1.1 200 ", 3 * L + 50, "r").encode(), "limit"))
                         out.append((limits, "unterminated_resp_header", delta, rk, ("HTTP/1.1 200 OK\r\n" + pad("X-P: ", 3 * F + 50)).encode(), "limit"))
+                # obsolete line folding (lax response parser only): the limit applies to the whole folded field
+                if delta != 0 and F >= 48:
+                    for m in (1, 2, 3):
+                        total = F + (12 if delta > 0 else -12)
+                        part = total // (m + 1)
+                        first = "X-P: " + "a" * (total - m * part)
+                        conts = "".join(" " + "b" * (part - 1) + "\r\n" for _ in range(m))
+                        out.append((limits, f"folded_header_{m}", delta, "response-lax", ("HTTP/1.1 200 OK\r\n" + first + "\r\n" + conts + "Content-Length: 0\r\n\r\n").encode(), exp))
                 # response status line / header
                 for rk in ("response-lax", "response-strict"):
                     out.append((limits, "status_line", delta, rk, (pad("HTTP/1.1 200 ", L + delta, "r") + "\r\nContent-Length: 0\r\n\r\n").encode(), exp))
